@@ -4,7 +4,8 @@
 #  baseline's with the patch applied.  Writes seeded/<id>/confirm.json.  The worktree is removed at the end.
 set -u
 ROOT="$(cd "$(dirname "$0")/.." && pwd)"
-WT=/tmp/wt_confirm
+WT=${CONFIRM_WT:-/tmp/wt_confirm}
+TAG=$(basename $WT)
 export CARGO_NET_OFFLINE=true
 git -C /repo worktree remove --force $WT 2>/dev/null
 git -C /repo worktree add -q --detach $WT HEAD || exit 2
@@ -17,17 +18,19 @@ for sd in $seeds; do
   [ -f $d/patch.diff ] || continue
   git checkout -q -- . ; git clean -fdq -e target
   applies=true; git apply --check $d/patch.diff 2>/dev/null || applies=false
-  ( sh $d/demo/run.sh > /tmp/confirm_demo_without.log 2>&1 ); without=$?
+  mkdir -p crates/proto/tests crates/net/tests crates/resolver/tests crates/server/tests
+  ( sh $d/demo/run.sh > /tmp/${TAG}_demo_without.log 2>&1 ); without=$?
   git checkout -q -- . ; git clean -fdq -e target
   with=-1; suite_same=unknown; nfail=""
   if $applies; then
     git apply $d/patch.diff
-    ( sh $d/demo/run.sh > /tmp/confirm_demo_with.log 2>&1 ); with=$?
+    mkdir -p crates/proto/tests crates/net/tests crates/resolver/tests crates/server/tests
+    ( sh $d/demo/run.sh > /tmp/${TAG}_demo_with.log 2>&1 ); with=$?
     # suite with the patch but without the demo file
     git clean -fdq -e target
-    run_suite > /tmp/confirm_suite_with.txt
-    if diff -q <(grep -v Summary /tmp/confirm_head_suite.txt) <(grep -v Summary /tmp/confirm_suite_with.txt) >/dev/null; then suite_same=true; else suite_same=false; fi
-    nfail=$(grep Summary /tmp/confirm_suite_with.txt | tr -s ' ')
+    run_suite > /tmp/${TAG}_suite_with.txt
+    if diff -q <(grep -v Summary /tmp/confirm_head_suite.txt) <(grep -v Summary /tmp/${TAG}_suite_with.txt) >/dev/null; then suite_same=true; else suite_same=false; fi
+    nfail=$(grep Summary /tmp/${TAG}_suite_with.txt | tr -s ' ')
   fi
   python3 - "$sd" "$applies" "$without" "$with" "$suite_same" "$nfail" <<'PY' > $d/confirm.json
 import json,sys
